@@ -30,6 +30,9 @@ ORDER_SENSITIVE = {
     "same-length": G % "samelen" + 'start = {"+=" | "-=" | "*=" | "/=" | "<=" | ">=" | "==" | "!="};\n',
     "name-pairs": G % "namep" + 'A1 = "p";\nA_1 = "q";\nA_ = "r";\nAA = "s";\nA11 = /t+/;\nA_11 = /u+/;\nstart = {A1 | A_1 | A_ | AA | A11 | A_11};\n',
     "pattern-ties": G % "patt" + 'LO = /[a-m]+/;\nHI = /[n-z]+/;\nUP = /[A-M]+/;\nUQ = /[N-Z]+/;\nstart = {LO | HI | UP | UQ};\n',
+    # anonymous sub-expressions: their generated names appear in the derived productions and in conflict reports
+    "amb-group": G % "ambgroup" + 'start = e;\ne = e ("+" | "-") e | e ["*" "/"] e | "x";\n',
+    "groups": G % "groups" + 'start = {item ","} [item ";"];\nitem = ("a" "b") | {{"c" "d"}} | ["e" "f"];\n',
     "dup-handles": G % "duph" + 'start = e;\ne = e "+" e | "x";\n@left "+";\n@right "+";\n@none "x" "+";\n',
 }
 DEP_ORDER = {
